@@ -217,6 +217,26 @@ def check_drop_rule(samples, kept, tol, depth_of):
 # raster maps
 # --------------------------------------------------------------------------
 
+def poke_invalid(m, scale=None, tol=None):
+    """A rejected setter call must not change what the map does afterwards (the last accepted value stays in force).
+    If an implementation *accepts* one of these values the accepted value is simply set again, so nothing is assumed."""
+    for bad in (-2.0, 0.0):
+        if scale is not None:
+            try:
+                m.set_scale(bad)
+            except Exception:                                            # noqa: BLE001 - rejected
+                pass
+            else:
+                m.set_scale(scale)
+        if tol is not None and tol > 0:
+            try:
+                m.set_tolerance(bad)
+            except Exception:                                            # noqa: BLE001
+                pass
+            else:
+                m.set_tolerance(tol)
+
+
 def half_lattice(lo, hi):
     n = int(round((hi - lo) * 2))
     return [lo + 0.5 * i for i in range(n + 1)]
@@ -260,6 +280,7 @@ def check_raster(col, h, w, bits, rows, scales, tols, lines, queries, want_obs=F
     nontrivial = False
     for scale in scales:
         m.set_scale(scale)
+        poke_invalid(m, scale=scale)
         cache = {}
 
         def depth_of(x, y, _c=cache):
@@ -305,6 +326,7 @@ def check_raster(col, h, w, bits, rows, scales, tols, lines, queries, want_obs=F
             for tol in (0.0,) + tuple(tols):
                 col.count("path_calls")
                 m.set_tolerance(tol)
+                poke_invalid(m, tol=tol)
                 try:
                     raw = m.sample_path(list(line))
                 except Exception as e:                               # noqa: BLE001
@@ -508,6 +530,7 @@ def check_sparse(col, pts3, scales, lines_by_tol, queries, want_obs=False):
     nontrivial = zmin != zmax
     for scale in scales:
         m.set_scale(scale)
+        poke_invalid(m, scale=scale)
 
         def depth_of(x, y):
             return float(m.get_depth_at(x, y))
@@ -565,6 +588,7 @@ def check_sparse(col, pts3, scales, lines_by_tol, queries, want_obs=False):
             if scale not in tscales:
                 continue
             m.set_tolerance(tol)
+            poke_invalid(m, tol=tol)
             for line in lines:
                 col.count("path_calls")
                 try:
